@@ -3,6 +3,7 @@
 out=$1; seed=$2; n=$3; steps=$4; shift 4
 profiles=${@:-default big queues rewards gov staking}
 mkdir -p $out/scn
+( cd /verif/harness && GOFLAGS=-mod=mod GOPROXY=off GOSUMDB=off GOTOOLCHAIN=local go test -c -tags verif -o harness.test . ) || exit 1
 for p in $profiles; do
   ( cd /verif/harness && VERIF_PROBES=${VERIF_PROBES:-} VERIF_GEN=1 VERIF_PROFILE=$p VERIF_SEED=$seed VERIF_TRACES=$n VERIF_STEPS=$steps VERIF_SCNDIR=$out/scn VERIF_OUT=$out/$p.trace ./harness.test -test.run TestGen 2>&1 | grep -v "^\s" | grep -v "^PASS\|^ok" | head -5
     timeout 600 /verif/lean/.lake/build/bin/alliance-driver < $out/$p.trace > $out/$p.out
